@@ -25,7 +25,7 @@ dyn_prop("C07", resync_fields={"success", "state", "used", "value"})
 import check_api
 
 API_SIZES = {
-    "C08": {"quick": (200, (5, 30)), "thorough": (4000, (5, 80))},
+    "C08": {"quick": (400, (8, 40)), "thorough": (4000, (5, 80))},
     "C09": {"quick": (40, 10), "thorough": (600, 30)},
     "C10": {"quick": (30, 25), "thorough": (400, 80)},
     "C11": {"quick": (30, 10), "thorough": (400, 30)},
